@@ -6,7 +6,7 @@ import ast
 
 from ..core import Report
 from ..eqterms import equal, explain
-from ..model import Program
+from ..model import AnalysisError, Program
 from ..refs import eval_ref_function, prelude
 from ..terms import C, Env, Interp, NONE, find_unknown, has_unknown, key, same, show, subst, walk
 from .c07 import compare
@@ -140,6 +140,43 @@ def rule_helpers(prog, rep):
     compare(rep, "C15.partition", f"{m.relpath}:{fn.lineno}", "train_val_split", got, chosen, "(train, val)")
     m, fn = prog.func(TU + "_add_batch")
     AR, B = ("sym", "ARR"), ("sym", "BATCH_SIZE")
+    rec = prog.recorded_signatures.get(TU + "_add_batch")
+    now = [p_.arg for p_ in fn.args.posonlyargs + fn.args.args + fn.args.kwonlyargs]
+    if rec is not None and list(rec) != now:
+        # the helper's interface changed (work moved between it and get_batches): the recorded division of labour does
+        # not apply.  Compare get_batches as a whole (helper inlined on both sides) under the premise its own guard
+        # establishes - every array has the length of the first (otherwise it raises) - so a length read off the first
+        # array and one read off each array are the same number.
+        m2, fn2 = prog.func(TU + "get_batches")
+        gi = Interp(prog)
+        try:
+            got = gi.eval_function(TU + "get_batches", [A, B])
+        except AnalysisError as e:
+            got = ("unknown", str(e))
+        first_len = ("sub", ("attr", ("sub", A, ("const", 0)), "shape"), ("const", 0))
+
+        def mentions_len(t):
+            return any(x[0] == "sub" and x[1][0] == "attr" and x[1][2] == "shape" and x[2] == ("const", 0) for x in walk(t))
+        guarded = any(g[0] in ("raise-if", "raise-in-loop", "raise-in-callback") and mentions_len(g[1]) for g in gi.guards
+                      if len(g) > 1 and isinstance(g[1], tuple))
+
+        def premise(t):
+            return subst(t, lambda x: first_len if (x[0] == "sub" and x[1][0] == "attr" and x[1][2] == "shape"
+                                                    and x[1][1][0] == "bv" and x[2] == ("const", 0)) else None)
+        head, _, rest = GET_BATCHES_REF.partition("\n")
+        inner = "".join("    " + ln + "\n" for ln in ADD_BATCH_REF.replace("def _add_batch(", "def _add_batch_ref(").splitlines())
+        src = head + "\n" + inner + rest.replace("_add_batch(", "_add_batch_ref(")
+        want = eval_ref_function(prog, m2, src, [A, B])
+        if not guarded:
+            for k2 in ("_add_batch", "get_batches"):
+                rep.undecided("C15.batch", f"{m.relpath}:{fn.lineno}", k2,
+                              f"the batching helper now takes {now} (recorded: {list(rec)}) and get_batches has no "
+                              f"equal-length guard to relate the two divisions of labour")
+            return
+        compare(rep, "C15.batch", f"{m.relpath}:{fn.lineno}", "_add_batch", premise(got), premise(want),
+                "batched arrays (helper inlined, lengths equal by get_batches' guard)")
+        compare(rep, "C15.batch", f"{m2.relpath}:{fn2.lineno}", "get_batches", premise(got), premise(want), "batches")
+        return
     got = Interp(prog).eval_function(TU + "_add_batch", [AR, B])
     want = eval_ref_function(prog, m, ADD_BATCH_REF, [AR, B])
     compare(rep, "C15.batch", f"{m.relpath}:{fn.lineno}", "_add_batch", got, want, "batched array")
@@ -163,7 +200,8 @@ def rule_fit(prog, rep):
     if m is None or "fit_to_data" not in m.functions:
         rep.undecided("C15.epoch", "-", "fit_to_data", "function vanished")
         return
-    fn = m.functions["fit_to_data"]
+    from .loops import dealias_container_members
+    fn = dealias_container_members(m.functions["fit_to_data"])
     site = f"{m.relpath}:{fn.lineno}"
     body = body_without_docstring(fn)
     loops = [s for s in body if isinstance(s, ast.For)]
@@ -237,8 +275,9 @@ def rule_fit(prog, rep):
     if not seen_calls:
         rep.undecided("C15.keys", site, "fit_to_data:per-batch-calls", "no per-batch step / loss_fn call found")
     # loop runs over range(max_epochs)
-    got_l, _ = summarise(prog, m, body[:li], PRO_IN, ["loop"], NOIN)
-    it_term = Interp(prog).ev(loop.iter, _env_of({"loop": got_l["loop"]}), (m, None, None))
+    iter_names = [n.id for n in ast.walk(loop.iter) if isinstance(n, ast.Name)] or ["loop"]
+    got_l, _ = summarise(prog, m, body[:li], PRO_IN, iter_names, NOIN)
+    it_term = Interp(prog).ev(loop.iter, _env_of({n: got_l[n] for n in iter_names if got_l[n][0] != "unknown"}), (m, None, None))
     rngs = [s for s in walk(it_term) if s[0] == "call" and s[1] == ("ext", "builtins.range")]
     ok = bool(rngs) and rngs[0][2] == (("sym", "MAX_EPOCHS"),)
     rep.check(ok, "C15.epoch", site, "fit_to_data:at-most-max_epochs", "iterates range(max_epochs)",
